@@ -48,6 +48,7 @@ def required_cells(tier):
               "plane-tangent-vertex", "plane-tangent-edge", "plane-tangent-face"):
         req["pos:" + s] = 10 if q else 100
     req["helper:longest-segment"] = 100 if q else 3000
+    req["body:more-than-10-faces-vs-line"] = 15 if q else 300
     for hc in ("used-then-moved/receiver", "used-then-moved/returned", "moved/receiver"):
         req["pose:history/" + hc] = 30
     return req
@@ -105,6 +106,8 @@ def judge(case):
         mu.cell("pos:" + lab)
     if body[0] == "PH":
         mu.cell("body:" + gen.family_of(body))
+        if len(body[2]) > 10 and (a[0] == "L" or b[0] == "L"):
+            mu.cell("body:more-than-10-faces-vs-line")
     else:
         mu.cell("body:%d-gon" % len(body[1]))
     x, y = C.lift_pair(case)
